@@ -359,6 +359,15 @@ func (l *MsgQueue) AllDone() bool {
 	return true
 }
 
+// DoneHead returns the number of consecutive completed messages starting at the head (the oldest).
+func (l *MsgQueue) DoneHead() int {
+	n := 0
+	for cur := l.head; cur != nil && cur.Done; cur = cur.prev {
+		n++
+	}
+	return n
+}
+
 func (l *MsgQueue) Empty() bool {
 	return l.count < 1
 }
